@@ -500,11 +500,15 @@ def parse_space_packets(
         concatenated_packets.extend(analysis_queue.popleft())
     current_idx = 0
     if len(concatenated_packets) < 6:
+        # Not even a CCSDS header yet. Keep the data until more arrives.
+        analysis_queue.append(concatenated_packets)
         return tm_list
     # Packet ID detected
     while True:
         # Can't even parse CCSDS header. Wait for more data to arrive.
         if current_idx + CCSDS_HEADER_LEN >= len(concatenated_packets):
+            if current_idx < len(concatenated_packets):
+                analysis_queue.append(concatenated_packets[current_idx:])
             break
         current_packet_id = (
             struct.unpack("!H", concatenated_packets[current_idx : current_idx + 2])[0]
